@@ -57,6 +57,9 @@ def gen_device(rng, maxp):
             period = 1
         else:
             period = rng.randint(1, maxp)
+        if msgs and rng.random() < 0.3:
+            # messages of one device often share a period: each keeps its own timing all the same
+            period = rng.choice(msgs)["period"]
         msgs.append({"name": f"M{i}", "id": ids[i], "widths": widths, "period": -1 if period == "omit" else period, "omit": period == "omit"})
     # the device under test ("ecu") is one of several in about half of the schemas: the messages of other devices (and some bound to no
     # device) are declared before, between and after its own, and none of them is the ecu's to send
@@ -234,7 +237,7 @@ def run(chk):
     ndev, nhist, hlen, maxp = (40, 40, 14, 60) if quick else (400, 120, 24, 2000)
     broken = chk.proof_obligations(["Corr/C19.vo", "Sched/SchedGenProofs.vo"])
     chk.coverage["rule"] = (
-        "devices: 1-4 CAN messages (u8/u16/u32 fields), periods -1, 0, 1, 1..N or none, in half of the schemas declared between 1-3 messages of other "
+        "devices: 1-4 CAN messages (u8/u16/u32 fields), periods -1, 0, 1, 1..N or none (three in ten messages repeat the period of an earlier message of the device), in half of the schemas declared between 1-3 messages of other "
         "devices (bms, dash, none), generated C compiled with gcc; "
         "histories: true times with deltas {0,1,P-1,P,P+1,2P,random,near-wrap}, first call possibly close to 2^32; "
         "non-trivial = at least one frame sent and one call suppressed; distinct = (periods, wrapped times)")
